@@ -3,7 +3,7 @@
 
    A parser of one format is a function  string -> res (option S)  (the C13 result monad; None is what P_cif
    returns for a CIF without atom sites).  `auto_loop` follows the loop literally: the first parser that
-   returns wins; StructureFormatError is collected as a complaint, NotImplementedError is skipped (the two
+   returns a structure wins (a None result stops the loop before the repair, counts as a complaint after it: auto_none_continues); StructureFormatError is collected as a complaint, NotImplementedError is skipped (the two
    except clauses are taken from the generated file), every other exception kind PROPAGATES. *)
 From Coq Require Import List Bool Arith.
 From DS Require Import Base.C13_Exn Gen.C12_ParserIndex.
@@ -94,7 +94,8 @@ Fixpoint auto_loop {S} (parse_of : string -> res (option S)) (fmts : list string
   | f :: rest =>
       match parse_of f with
       | Ok (Some s) => AOk f s
-      | Ok None => AFail (rev msgs)
+      | Ok None => if auto_none_continues then auto_loop parse_of rest (f :: msgs)    (* `fmt: no structure found` *)
+                   else AFail (rev msgs)                                             (* the loop used to stop here *)
       | Raise k =>
           if catches auto_collect_caught k then auto_loop parse_of rest (f :: msgs)
           else if catches auto_skip_caught k then auto_loop parse_of rest msgs
@@ -107,12 +108,14 @@ Definition auto {S} (parse_of : string -> res (option S)) (filename : option str
 
 (* a parser rejects: it raises something one of the two clauses handles *)
 Definition rejects {S} (parse_of : string -> res (option S)) (g : string) : Prop :=
-  exists k, parse_of g = Raise k /\ (catches auto_collect_caught k || catches auto_skip_caught k = true).
+  (exists k, parse_of g = Raise k /\ (catches auto_collect_caught k || catches auto_skip_caught k = true)) \/
+  (auto_none_continues = true /\ parse_of g = Ok None).
 
 Definition complains {S} (parse_of : string -> res (option S)) (g : string) : bool :=
   match parse_of g with
   | Raise k => catches auto_collect_caught k
-  | _ => false
+  | Ok None => auto_none_continues
+  | Ok (Some _) => false
   end.
 
 Fixpoint nodupb (l : list string) : bool :=
